@@ -148,6 +148,12 @@ def build_scenarios(pid, tier, cov):
         t["lp"] = CALLBACKS[i % len(CALLBACKS)]
         t["src"] = s["src"] + "+listener-panic"
         scs.append(t)
+    # panic payload kinds: literal, formatted, long formatted (1000 bytes) and long with multi-byte characters
+    kinds = ["str", "string", "string_long", "string_utf8"]
+    for s in scs:
+        for st in s["hist"]:
+            if st.get("a") == "panic" and st.get("kind") in (None, "str", "string"):
+                st["kind"] = rng.choice(kinds)
     for i, s in enumerate(scs):
         s["id"] = i + 1
         # the resuming thread must keep working after bodies that panicked / trapped: hooked 1 ms sleep
@@ -182,8 +188,10 @@ def run_driver(bindir, scs, wd):
             f.write(json.dumps({"ev": "cend", "scenario": sid, "seq": 0, "th": 999}) + "\n")
         start = sid
         restarts += 1
-        if restarts > 100:
-            raise ToolError("driver coro keeps dying")
+        if restarts > 60:
+            # every death is already in the trace as data; do not spend the time budget on hundreds more
+            log("NOTE driver coro died in more than 60 scenarios: the remaining %d scenarios are skipped" % (len(scs) - start))
+            break
     return tpath
 
 
